@@ -31,13 +31,13 @@ impl Report {
     }
     pub fn print(&self, prop: &str) {
         for (k, v) in &self.stats {
-            println!("stat {} {}", k, v);
+            println!("@stat {} {}", k, v);
         }
         for s in &self.samples {
-            println!("sample {}", s);
+            println!("@sample {}", s);
         }
         for f in &self.fails {
-            println!("FAIL {} {}", prop, f);
+            println!("@FAIL {} {}", prop, f);
         }
     }
 }
